@@ -26,7 +26,7 @@ SKS = [None, False, True, ['list', []], ['list', ['u1']], ['tuple', ['u1', 'pkg.
 
 def gen_ref(rng):
   sel = rng.choice(list(KNOWN) + UNKNOWN + AMBIG)
-  scope = rng.choice(['', '', 's1/'])
+  scope = rng.choice(['', '', 's1/', 's1/s2/', 's2/s1/s3/'])
   return ['ref', scope + sel, rng.random() < 0.5]
 
 
@@ -222,7 +222,8 @@ class SkipEngine(Engine):
             except ValueError:
               pass
             except Exception as e:  # pylint: disable=broad-except
-              fails.append(('placeholder-wrong-error', '%s: %s' % (type(e).__name__, e)))
+              if not (isinstance(e, TypeError) and 'macro()' in str(e)):   # an unbound macro evaluated first
+                fails.append(('placeholder-wrong-error', '%s: %s' % (type(e).__name__, e)))
         if holders:
           try:
             m.gin.finalize()
